@@ -3,11 +3,17 @@
 Decided: the stale-propagation closure.  Whatever an operation changes, it leaves nothing that
 depends on the change marked as done:
 
-  R1  a file whose state changed (or the file whose new hash was just recorded from outside) has no
-      consumer (edge file -> step, attached or detached) that is SUCCEEDED or FAILED afterwards;
+  R1  a file that becomes available, or changes while available (its state afterwards is BUILT or
+      CONFIRMED, and either its state changed or its new hash was just recorded from outside), has no
+      consumer (edge file -> step, attached or detached) that is SUCCEEDED, FAILED or deferred
+      afterwards;
   R2  a step that left SUCCEEDED has no output (edge step -> file, attached or detached) that is
-      still BUILT afterwards;
-  R3  a step that consumes a changed file keeps no deferred flag (it is schedulable again).
+      still BUILT afterwards.
+
+A file that becomes unavailable (OUTDATED / PLANNED / MISSING) need not wake its consumers at once:
+its producer is no longer SUCCEEDED (C09, I4), so the file has to be rebuilt, and R1 applies when it
+is.  (A first version of R1 demanded the wake-up at once for every state change; the code is right,
+the rule was too strong -- see DESIGN.md section 11.)
 
 R1-R3 are local rules; because they apply to EVERY change the operation makes, they give the
 transitive closure: a change cannot stop propagating at any node of the bounded graph.
@@ -25,14 +31,14 @@ from vf.symsql.values import bz
 CLAIM = (
     "C01 (mechanisms): from any database state within the bound, an external change of any file "
     "(update_file_hashes, every cause), a completion (mark_completed, success and failure) and "
-    "mark_step_pending leave no step SUCCEEDED/FAILED that consumes a file whose state changed, no BUILT "
-    "output of a step that left SUCCEEDED, and no deferred consumer of a changed file -- attached or "
+    "mark_step_pending leave no step SUCCEEDED, FAILED or deferred that consumes a file which became "
+    "available or changed while available, and no BUILT output of a step that left SUCCEEDED -- attached or "
     "detached (detached nodes can be recycled with their state); a fully recycled step is never FAILED "
     "(C05/O5.2); skip soundness is C03."
 )
 OUTSIDE = [
     "the composition over a history of edits and builds; commands, subprocesses, file contents",
-    "rescan_env_vars / rescan_nglobs at startup (environment variables and glob matches are not in the bounded state)",
+    "the file-system scan behind rescan_nglobs (NamedGlob.glob is a stub: an arbitrary function of pattern and substitutions; its language is C17)",
     "reset_for_rerun's interaction with running child steps",
 ]
 ASSUMPTIONS = C10.ASSUMPTIONS
@@ -42,10 +48,11 @@ JUDGE_CLOSURE = '''        def JUDGE(S0, S1, margs):
             changed = {f for f, r in S1["file"].items() if f in S0["file"] and S0["file"][f][1] != r[1]}
             if op == "update_file_hashes(EXTERNAL)":
                 changed.add(margs["m.file"])
+            changed = {f for f in changed if S1["file"][f][1] in (14, 16)}
             for _, a, b, dyn in S1["dep"]:
                 if a in changed and b in S1["step"]:
                     if S1["step"][b][1] in (23, 24): bad.append(("R1 consumer of a changed file is still SUCCEEDED/FAILED", a, b))
-                    if S1["step"][b][2]: bad.append(("R3 consumer of a changed file is still deferred", a, b))
+                    if S1["step"][b][2]: bad.append(("R1 consumer of a changed file is still deferred", a, b))
                 if a in S1["step"] and a in S0["step"] and S0["step"][a][1] == 23 and S1["step"][a][1] != 23 and b in S1["file"] and S1["file"][b][1] == 16:
                     bad.append(("R2 output of a step that left SUCCEEDED is still BUILT", a, b))
             return bad
@@ -65,12 +72,13 @@ def closure_post(name):
             changed = z3.And(bz(pf[f].present), bz(nf.present), pf[f].vals["state"].v != nf.vals["state"].v)
             if name == "update_file_hashes(EXTERNAL)":
                 changed = z3.Or(changed, z3.And(mf == f + 1, bz(nf.present)))
+            changed = z3.And(changed, z3.Or(nf.vals["state"].v == FileState.BUILT.value, nf.vals["state"].v == FileState.CONFIRMED.value))
             for s in range(K):
                 ns = wf.steps[s]
                 edge = z3.And(wf.dep_edge(f, s), bz(ns.present))
                 done = z3.Or(ns.vals["state"].v == StepState.SUCCEEDED.value, ns.vals["state"].v == StepState.FAILED.value)
                 bad.append(z3.And(changed, edge, done))  # R1
-                bad.append(z3.And(changed, edge, ns.vals["deferred"].v != 0))  # R3
+                bad.append(z3.And(changed, edge, ns.vals["deferred"].v != 0))  # R1 (deferred)
         for s in range(K):
             left = z3.And(bz(ps[s].present), bz(wf.steps[s].present), ps[s].vals["state"].v == StepState.SUCCEEDED.value, wf.steps[s].vals["state"].v != StepState.SUCCEEDED.value)
             for f in range(K):
@@ -98,4 +106,26 @@ def mk(name):
     return fn
 
 
-OBLIGATIONS = [Ob(f"O1.{k}", mk(n), f"stale-propagation closure of {n}", weight=3, timeout={"quick": 2400, "thorough": 7200}) for k, n in enumerate(OPS)]
+def _xh(oid, cond, pre, what, t=600):
+    def fn(tier):
+        import stepup.core.startup as su
+
+        from vf import xh
+        from vf.runner import enc
+
+        res = ObResult()
+        res.bounds = pre
+        res.encoded += [enc(su.rescan_env_vars), enc(su.rescan_nglobs)]
+        xh.run_condition(res, "C01", oid, "harness.c01", cond, pre, t if tier == "quick" else 3 * t, what=what)
+        res.nontrivial = 1
+        return res
+
+    return fn
+
+
+XH_OBS = [
+    Ob("O1.e", _xh("O1.e", "rescan_env_vars_exact", "0 <= n0 < 2 and 0 <= n1 < 2 and 0 <= o0 < 3 and 0 <= o1 < 3 and 0 <= va < 3 and 0 <= vb < 3 and 0 <= nrows <= 3", "rescan_env_vars marks exactly the steps whose recorded value differs"), "environment rescan at startup marks exactly the affected steps", timeout={"quick": 1200, "thorough": 3000}),
+    Ob("O1.g", _xh("O1.g", "rescan_nglobs_stable", "True", "rescan_nglobs rescans with the registered substitutions"), "glob rescan at startup: unchanged matches change nothing, changed matches are persisted"),
+]
+
+OBLIGATIONS = XH_OBS + [Ob(f"O1.{k}", mk(n), f"stale-propagation closure of {n}", weight=3, timeout={"quick": 2400, "thorough": 7200}) for k, n in enumerate(OPS)]
